@@ -22,7 +22,7 @@ ASSUMPTIONS = ['io.TextIOBase.read(n) may return fewer than n characters; only a
                'a segment with no non-empty element is compared in normal form only (format() writes "SE*~" for "SE~")',
                'path sources are restricted to ASCII text (the reader opens files as ASCII by design)']
 REQUIRED_COUNTERS = ['texts', 'reads', 'segments-compared', 'straddling-segments', 'sources:path', 'sources:file', 'sources:short-reads', 'sources:resumed', 'roundtrips',
-                     'expected:leading-blank', 'expected:trailing-sep', 'texts:long-segment', 'texts:empty-segment', 'texts:text-after-last-terminator']
+                     'expected:leading-blank', 'expected:trailing-sep', 'texts:long-segment', 'texts:empty-segment', 'texts:text-after-last-terminator', 'texts:short-later-isa']
 MIN_CASES = {'quick': 1300, 'thorough': 30000}
 
 CHUNKS = [1, 7, 105, 106, 107, 4096, 8191, 8192, 8193]
@@ -84,7 +84,21 @@ def soup(rng, quick):
             feats.add('trailing-sep')
         return s
 
+    short_isa_at = rng.randrange(2, nseg) if (rng.random() < 0.12 and eol != 'mixed') else None
     for k in range(nseg):
+        if k == short_isa_at:
+            # a later interchange header written without padding (16 elements, far fewer than 106 characters), followed by a segment whose terminator
+            # lies exactly 105 characters after the header's first character: headers after the first are ordinary delimited segments
+            isa2 = ele_t.join(['ISA', '00', '', '00', '', 'ZZ', 'S', 'ZZ', 'R', '040608', '1333', 'U', '00401', '000000002', '0', 'P', sub_t])
+            fill_n = 105 - len(isa2) - 1 - len(eol) - len('K3' + ele_t)
+            if fill_n > 0:
+                out.append(isa2)
+                out.append(seg_t)
+                out.append(eol)
+                out.append('K3' + ele_t + ''.join(rng.choice(alpha.replace(' ', 'Q')) for _ in range(fill_n)))
+                out.append(seg_t)
+                out.append(eol)
+                feats.add('short-later-isa')
         r = rng.random()
         pre = ''
         if r < 0.05:
